@@ -232,6 +232,21 @@ Theorem C15_dmet_cost_zero_iff_electron_sum :
 Proof. exact oneshot_cost_zero_iff. Qed.
 Print Assumptions C15_dmet_cost_zero_iff_electron_sum.
 
+(* 10. _default_optimizer: results are either the accepted start value or the root search's; the ORIGINAL source
+       (no evaluation at the start value) raises with a root search that cannot make a step although the criterion holds. *)
+Theorem C15_dmet_optimizer_result :
+  forall (K : Type) guard (small : K -> bool) newton cost mu0 r,
+    default_optimizer_src guard small newton cost mu0 = Ok r ->
+    (r = mu0 /\ small (cost mu0) = true) \/ newton cost mu0 = Ok r.
+Proof. exact optimizer_result. Qed.
+Print Assumptions C15_dmet_optimizer_result.
+
+Theorem C15_dmet_optimizer_asis_refuted :
+  exists (small : Z -> bool) newton cost mu0,
+    small (cost mu0) = true /\ default_optimizer_src false small newton cost mu0 = Err (RuntimeError "Tolerance").
+Proof. exact optimizer_asis_refuted. Qed.
+Print Assumptions C15_dmet_optimizer_asis_refuted.
+
 (* ------------------------------------------------------------------ non-vacuity / witnesses *)
 (* a 3-centre table over Z with tuple keys: energies 100*sum + product-like values, e_mf = 7 *)
 Definition exEn (t : list nat) : ZRing := Z.of_nat (fold_left Nat.add t 0 * 100 + length t * length t).
